@@ -297,6 +297,11 @@ class Engine:
         if self.registry is not None:
             ov = self.registry.global_override(mod.name + '.' + name)
             if ov is not _MISSING:
+                if isinstance(ov, StateGlobal):
+                    # a module-level object: lives in the heap of each state (never cached: a Ref is state-specific)
+                    if st is None:
+                        raise Unsupported('module-level object %s.%s used outside a state' % (mod.name, name))
+                    return ov.get(self, st)
                 self.module_cache[key] = ov
                 return ov
         d = mod.defs.get(name)
@@ -306,7 +311,8 @@ class Engine:
                 if m2 is not None and not name.startswith('_'):
                     v = self.module_global(m2, name, st)
                     if v is not _MISSING:
-                        self.module_cache[key] = v
+                        if not isinstance(v, Ref):
+                            self.module_cache[key] = v
                         return v
             return _MISSING
         if d[0] == 'func':
@@ -314,7 +320,9 @@ class Engine:
         elif d[0] == 'class':
             v = ClassV(d[1])
         elif d[0] == 'import':
-            v = self.import_value(d[1], d[2])
+            v = self.import_value(d[1], d[2], st)
+            if isinstance(v, Ref):
+                return v
         elif d[0] in ('assign', 'assign_tuple'):
             v = self.eval_module_expr(mod, d[1])
             if d[0] == 'assign_tuple':
@@ -324,7 +332,7 @@ class Engine:
         self.module_cache[key] = v
         return v
 
-    def import_value(self, modname, attr):
+    def import_value(self, modname, attr, st=None):
         m = loader.load_module(modname)
         if attr is None:
             return ModuleV(modname, m)
@@ -334,13 +342,17 @@ class Engine:
                 sub = loader.load_module(modname + '.' + attr)
                 if sub is not None:
                     return ModuleV(modname + '.' + attr, sub)
-            v = self.module_global(m, attr)
+            v = self.module_global(m, attr, st)
             if v is not _MISSING:
                 return v
         q = modname + '.' + attr
         if self.registry is not None:
             ov = self.registry.global_override(q)
             if ov is not _MISSING:
+                if isinstance(ov, StateGlobal):
+                    if st is None:
+                        raise Unsupported('module-level object %s used outside a state' % q)
+                    return ov.get(self, st)
                 return ov
         mv = self.models.external_attr(self, modname, attr)
         if mv is not _MISSING:
@@ -1238,7 +1250,7 @@ class Engine:
             base = base[:len(base) - (n.level - 1)]
             mod = '.'.join(base + ([mod] if mod else []))
         for a in n.names:
-            st.frame.env[a.asname or a.name] = self.import_value(mod, a.name)
+            st.frame.env[a.asname or a.name] = self.import_value(mod, a.name, st)
         return [('fall', st)]
 
     def s_FunctionDef(self, n, st):
